@@ -107,7 +107,7 @@ Fixpoint pp_stmt (s : stmt) : list tok :=
   | SSimple sp e pt p =>
       tpl sp "if ! matches ! ( $0 , $1 ) { $2 }" [pp_vexpr e; pt; pp_push p]
   | SString sp e lit lsp p =>
-      tpl sp "{ let __assert_struct_tmp = & ( $0 ) ; let __assert_struct_actual = ( * __assert_struct_tmp ) . as_ref ( ) ; if ! matches ! ( __assert_struct_actual , $1 ) { $2 } }"
+      tpl sp "{ match & ( $0 ) { __assert_struct_scrutinee => { let __assert_struct_tmp = __assert_struct_scrutinee ; let __assert_struct_actual = ( * __assert_struct_tmp ) . as_ref ( ) ; if ! matches ! ( __assert_struct_actual , $1 ) { $2 } } } }"
           [pp_vexpr e; [TLit lit lsp]; pp_push p]
   | SCmp sp op e x p =>
       tpl sp ("# [ allow ( clippy :: nonminimal_bool ) ] if ! ( ( $0 ) . " ++ cmp_method op ++ " ( & ( $1 ) ) ) { $2 }")
